@@ -128,6 +128,7 @@ def _init_unit(case):
                 for idx in rnp.ndindex(*A._XX_R[key].shape):
                     ok = ok and _valid(_ceq(new._XX_R[key][idx], SCplx.of(A._XX_R[key][idx]) * (1 - alpha) + SCplx.of(B._XX_R[key][idx]) * alpha))
             U.ensure("interpolate(alpha): every matrix entry is (1-alpha) A + alpha B (affine in alpha)", ok)
+            U.ensure("interpolate(alpha): the quantities cached from the centres (reduced centres, ...) are dropped after the centres were mixed", getattr(new, "cleared_wcc", 0) >= 1)
             U.ensure("interpolate(alpha): centres are (1-alpha) wcc0 + alpha wcc1",
                      all(_valid(lift(new.wannier_centers_cart[i, j]) == (1 - alpha) * A.wannier_centers_cart[i, j] + alpha * B.wannier_centers_cart[i, j]) for i in range(2) for j in range(3)))
             def shifts_ok(n_, al):
@@ -170,6 +171,41 @@ def _soc(U):
         U.ensure("the spinor part is interpolated by the base class with the same alpha", len(base) >= 1 and base[-1] is alpha)
         U.ensure("up (and down) sub-systems are interpolated with the same alpha; nspin bookkeeping",
                  out.system_up == ("up", alpha) and (out.system_down == ("down", alpha) and out.nspin == 2 if two else out.system_down is out.system_up and out.nspin == 1))
+    U.run(body, check_feasible=False)
+
+
+@unit("C26", "SystemInterpolatorSOC.__init__: the spin-down channel is interpolated unless BOTH systems have a single channel", scope="shape:nspin (1,1), (1,2), (2,1), (2,2)", expect_min=1)
+def _soc_init(U):
+    made = []
+
+    class SI:
+        def __init__(self, a, b, pg):
+            made.append((a, b, pg))
+    supc = []
+    f = U.fn(F, "SystemInterpolatorSOC.__init__", globs=dict(np=rnp, copy=copy, SystemInterpolator=SI,
+                                                            super=lambda: __import__("types").SimpleNamespace(__init__=lambda a, b, pg: supc.append((a, b, pg)))), model=False)
+
+    def body():
+        n0 = 1 + ctx().choose(2, "nspin of system 0 - 1")
+        n1 = 1 + ctx().choose(2, "nspin of system 1 - 1")
+        del made[:]
+        del supc[:]
+
+        def soc(tag, nspin):
+            o = type("SOC", (), {})()
+            o.nspin, o.system_up = nspin, tag + "-up"
+            o.system_down = tag + "-down" if nspin == 2 else o.system_up        # as SystemSOC sets it up
+            return o
+        s0, s1 = soc("s0", n0), soc("s1", n1)
+        me = type("Me", (), {})()
+        me.system0, me.system1 = type("Copy", (), {})(), type("Copy", (), {})()     # the base class stores deep copies
+        f(me, s0, s1, use_pointgroup=0)
+        ok = supc == [(s0, s1, 0)] and made[0] == ("s0-up", "s1-up", 0) and isinstance(me.interpolator_up, SI)
+        if n0 == 1 and n1 == 1:
+            ok = ok and me.interpolator_down is None and len(made) == 1
+        else:
+            ok = ok and len(made) == 2 and made[1] == (s0.system_down, s1.system_down, 0) and me.interpolator_down is not None
+        U.ensure("up channels paired; down channels paired (a single-channel system contributes its only channel) unless both systems are single-channel; base class initialised with the SOC parts", ok)
     U.run(body, check_feasible=False)
 
 
